@@ -98,7 +98,7 @@ def auth_data(rp_id_hash: bytes, flags: int, counter: int, *, aaguid: Optional[b
 
 
 def client_data(typ, challenge: bytes, origin, *, extra=None, token_binding="absent", cross_origin=None,
-                order=("type", "challenge", "origin"), challenge_text=None) -> bytes:
+                order=("type", "challenge", "origin"), challenge_text=None, style="compact") -> bytes:
     d = {}
     vals = {"type": typ, "challenge": challenge_text if challenge_text is not None else b64url(challenge), "origin": origin}
     for k in order:
@@ -109,6 +109,13 @@ def client_data(typ, challenge: bytes, origin, *, extra=None, token_binding="abs
         d["tokenBinding"] = token_binding
     if extra:
         d.update(extra)
+    if style == "pretty":            # the same JSON value written with whitespace and line breaks
+        return json.dumps(d, indent=2).encode("utf-8")
+    if style == "escaped":           # the same JSON value with every string character written as a \uXXXX escape
+        def esc(v):
+            return '"' + "".join("\\u%04x" % ord(ch) if ord(ch) < 0x10000 else ch for ch in v) + '"'
+        body = ",".join(esc(k) + ":" + (esc(v) if isinstance(v, str) else json.dumps(v, separators=(",", ":"))) for k, v in d.items())
+        return ("{" + body + "}").encode("utf-8")
     return json.dumps(d, separators=(",", ":")).encode("utf-8")
 
 
